@@ -64,6 +64,7 @@ type accessTrace struct {
 	Unsat  bool       `json:"unsat"`
 	Events []accEvent `json:"events"`
 	Slack  int        `json:"slack"` // extra end-detecting reads per poll (a poll that drives the scan several times)
+	Total  int        `json:"total"` // > 0: the statement drains its scan once: at most this many reads past the end altogether
 }
 
 func compactEvents(log []Event) []accEvent {
@@ -416,7 +417,7 @@ func replayRegion(args []string) {
 									if ol.Phase != "done" {
 										continue
 									}
-									out.Trace("access", accessTrace{ID: fmt.Sprintf("%s#s%d-%s-%s%d-l%d", id, si, kind, mode, bs, li), Q: ql, Pins: fixPins(rc.Pins), Unsat: rc.Unsat, Events: compactEvents(shl.Log), Slack: 1})
+									out.Trace("access", accessTrace{ID: fmt.Sprintf("%s#s%d-%s-%s%d-l%d", id, si, kind, mode, bs, li), Q: ql, Pins: fixPins(rc.Pins), Unsat: rc.Unsat, Events: compactEvents(shl.Log), Slack: 1, Total: map[bool]int{true: 2, false: 0}[li == 3]})
 								}
 							}
 							// the same statement with one of its first storage calls failing (cursor creation, the
